@@ -12,7 +12,7 @@ from vp import invariants as I
 BY_DESIGN = (ValueError, TypeError)
 
 
-def segments(case, traces, with_init=False):
+def segments(case, traces, with_init=False, with_pwm=False):
     """[(trace, dts)] (or [(trace, dts, init)]) one per 'epoch' (between resets), using the last trace of each epoch;
     dts[k] = requested dt (s) of the run that produced instant k; init = the initial conditions of that epoch."""
     out = []
@@ -21,6 +21,7 @@ def segments(case, traces, with_init=False):
     last_tr = None
     ti = 0
     init = case['init']
+    hand = {}            # instant index -> duty cycle set by hand just before that instant was computed
     for op in case['history']:
         if ti >= len(traces):
             break
@@ -34,14 +35,23 @@ def segments(case, traces, with_init=False):
                 dts = dts + [dt] * (tr.n - n_prev)
             n_prev = tr.n
             last_tr = tr
+        elif op['op'] == 'set_pwm':
+            hand[n_prev] = op['value']
         elif op['op'] == 'reset':
             if last_tr is not None:
-                out.append((last_tr, dts, init) if with_init else (last_tr, dts))
+                out.append(_seg(last_tr, dts, init, hand, with_init, with_pwm))
             dts, n_prev, last_tr = [None], 0, None
             init = op.get('init') or case['init']
+            hand = {}
     if last_tr is not None:
-        out.append((last_tr, dts, init) if with_init else (last_tr, dts))
+        out.append(_seg(last_tr, dts, init, hand, with_init, with_pwm))
     return out
+
+
+def _seg(tr, dts, init, hand, with_init, with_pwm):
+    if with_pwm:
+        return tr, dts, init, dict(hand)
+    return (tr, dts, init) if with_init else (tr, dts)
 
 
 def simulate_checked(case, res: Result, pid):
